@@ -57,6 +57,13 @@ func cmdSSA(args []string) {
 				fn.WriteTo(os.Stdout)
 			}
 		}
+		if strings.HasPrefix(name, "pkginit:") {
+			for _, sp := range p.ssaProg.AllPackages() {
+				if sp.Pkg.Path() == name[len("pkginit:"):] {
+					sp.Func("init").WriteTo(os.Stdout)
+				}
+			}
+		}
 	}
 }
 
@@ -98,6 +105,15 @@ func cmdVerify(args []string) {
 		for k, c := range cs.Funcs {
 			if !c.Trusted && !c.IsVar {
 				keys = append(keys, k)
+			}
+		}
+	}
+	if *all {
+		seen := map[string]bool{}
+		for _, gi := range cs.GlobalInvs {
+			if !seen[gi.Pkg] {
+				seen[gi.Pkg] = true
+				keys = append(keys, gi.Pkg+".init")
 			}
 		}
 	}
@@ -147,6 +163,9 @@ func cmdVerify(args []string) {
 			}
 			if o.Status == "unsat" {
 				ok++
+				if o.Time > 3 && os.Getenv("GOCV_DEBUG") != "" {
+					fmt.Printf("  slow %.1fs [%s] %s\n", o.Time, o.Solver, o.Name)
+				}
 			} else {
 				bad++
 				fmt.Printf("  FAIL %-8s %s  [%s %.2fs] %s  (%s)\n", o.Status, o.Name, o.Solver, o.Time, o.Text, o.Pos)
